@@ -363,8 +363,11 @@ func vf4Garble(tok, spec string) (string, bool, error) {
 		pm, _ := strconv.Atoi(f[2])
 		bit, _ := strconv.Atoi(f[3])
 		raw, err := vf4b64.DecodeString(parts[seg])
-		if err != nil || len(raw) == 0 {
+		if err != nil {
 			return "", false, fmt.Errorf("segment %d not decodable", seg)
+		}
+		if len(raw) == 0 { // empty signature (alg none / stripped): corrupt it by adding one byte
+			raw = []byte{0}
 		}
 		raw[(len(raw)-1)*pm/1000] ^= 1 << uint(bit%8)
 		parts[seg] = vf4b64.EncodeToString(raw)
